@@ -48,7 +48,11 @@ func LoadImage(path string) (*Image, error) {
 	if im.Text, err = ts.Data(); err != nil {
 		return nil, err
 	}
-	if ps := ef.Section(".gopclntab"); ps != nil {
+	ps := ef.Section(".gopclntab")
+	if ps == nil {
+		ps = ef.Section(".data.rel.ro.gopclntab") // position-independent executables
+	}
+	if ps != nil {
 		pd, err := ps.Data()
 		if err != nil {
 			return nil, err
@@ -57,8 +61,16 @@ func LoadImage(path string) (*Image, error) {
 		if err != nil {
 			return nil, fmt.Errorf("%s: pclntab: %v", path, err)
 		}
+		// position-independent executables carry a zero text start in the pclntab header (it is relocated
+		// at load time): entries are then offsets from the start of .text
+		var rebase uint64
+		if n := len(tab.Funcs); n > 0 && tab.Funcs[n-1].End <= uint64(len(im.Text)) && ts.Addr > uint64(len(im.Text)) {
+			rebase = ts.Addr
+		}
 		for i := range tab.Funcs {
 			fn := &tab.Funcs[i]
+			fn.Entry += rebase
+			fn.End += rebase
 			if fn.Entry < ts.Addr || fn.End > ts.Addr+uint64(len(im.Text)) || fn.End <= fn.Entry {
 				continue
 			}
